@@ -59,7 +59,7 @@ def fixed_cases(tier):
                 "def outer(y):\n    def inner(x):\n        if 0:\n            g = lambda: x\n        return y\n    return inner\n",
                 "def outer(y):\n    def inner(x):\n        return\n        g = lambda: x\n        return y\n    z = y\n    return inner, z\n"]:
         for e in EDITS:
-            for k in (0, 1, 3):
+            for k in (0, 1, 2, 3):
                 out.append({"case": {"src": src, "mode": "exec", "optimize": 0, "min_version": 7}, "edit": {"kind": e, "k": k, "to": 5}, "pick": k, "_label": "override_edits"})
     if tier == "thorough":
         out += [{"spec": s, "_label": "huge_specs"} for s in gen_codedata.huge_specs()]
